@@ -23,6 +23,8 @@ mode=compile; sed -n 2p "$1" | grep -q '^// mode: gogen' && mode=gogen
 i=0
 for f in "$@"; do i=$((i+1)); if [ $mode = gogen ]; then cp "$f" "$d/zzs/src/s${i}_co.go"; else cp "$f" "$d/zzs/src/s$i.go"; fi; [ -d "${f%.go}.files" ] && cp "${f%.go}.files"/* "$d/zzs/src/"; done
 for g in "$d"/zzs/src/*.go.txt; do [ -e "$g" ] && mv "$g" "${g%.txt}"; done   # further Go files of a sample are stored as *.go.txt
+# a companion named <pkg>__<file>.go.txt belongs to another package, importable as github.com/goghcrow/go-co/zzs/<pkg>
+for g in "$d"/zzs/src/*__*.go; do [ -e "$g" ] || continue; b=$(basename "$g"); sub=${b%%__*}; mkdir -p "$d/zzs/$sub"; mv "$g" "$d/zzs/$sub/${b#*__}"; done
 cat > "$d/zzs/tool/main.go" <<'GO'
 package main
 
